@@ -16,6 +16,8 @@ var commands = map[string]func([]string){
 	"registry":  cmdRegistry,
 	"regreplay": cmdRegReplay,
 	"selectors": cmdSelectors,
+	"history":   cmdHistory,
+	"iotrace":   cmdIOTrace,
 }
 
 func main() {
